@@ -18,6 +18,7 @@ import (
 type PropConfig struct {
 	Functions   []string `json:"functions"`    // functions under contract whose obligations decide the property
 	OrderLoops  []string `json:"order_pkgs"`   // packages whose map ranges get order obligations
+	OrderSkip   map[string]string `json:"order_skip"` // map ranges left unverified (function/order:loopN -> reason)
 	Relational  []string `json:"relational"`   // relational lemma groups
 	Unverified  []string `json:"unverified"`   // named parts of the property that no contract covers
 	Assumed     []string `json:"assumed"`      // assumed contracts / entry-point preconditions
@@ -171,7 +172,32 @@ func cmdCheck(args []string) {
 	var all []*Obligation
 	results := map[string]*FuncResult{}
 	var outOfSubset, bindingErrs, notes []string
-	for _, fn := range pc.Functions {
+	funcs := append([]string{}, pc.Functions...)
+	orderLoops := 0
+	if len(pc.OrderLoops) > 0 {
+		eng.orderSkip = pc.OrderSkip
+		or := eng.orderObligations(pc.OrderLoops, *prop)
+		for k, why := range pc.OrderSkip {
+			notes = append(notes, "map range left unverified: "+k+": "+why)
+		}
+		all = append(all, or.obs...)
+		outOfSubset = append(outOfSubset, or.outOfSubset...)
+		notes = append(notes, or.notes...)
+		orderLoops = len(or.obs)
+		for _, ef := range or.extraFuncs {
+			dup := false
+			for _, f0 := range funcs {
+				if f0 == ef {
+					dup = true
+				}
+			}
+			if !dup {
+				funcs = append(funcs, ef)
+			}
+		}
+	}
+	_ = orderLoops
+	for _, fn := range funcs {
 		r := eng.verifyFunc(fn, false)
 		results[fn] = r
 		if r.BindingErr != "" {
@@ -280,7 +306,7 @@ func cmdCheck(args []string) {
 	// evidence
 	if !*noEvidence {
 		var fns []string
-		for _, fn := range pc.Functions {
+		for _, fn := range funcs {
 			fns = append(fns, fn)
 		}
 		var axioms []string
